@@ -241,18 +241,30 @@ def _one_field(prog: Program, res: Result):
     fi = prog.func(q)
     res.analysed(q)
     okn = False
-    for n in ast.walk(fi.node):
-        if isinstance(n, ast.Assign) and len(n.targets) == 1 and isinstance(n.targets[0], ast.Name) and n.targets[0].id == "m_flow_network":
-            e = Engine(prog, fi, Hooks())
-            s = State()
-            for p in fi.params():
-                s.env[p] = Rat.atom(p)
-            s.env["bore_field"] = Rat.atom("bore_field")
-            v = e.eval(n.value, s)
-            okn = isinstance(v, Rat) and v.equals(sym.call("len", [Rat.atom("bore_field")]) * Rat.atom("m_flow_borehole"))
+    nets = [c for c in ast.walk(fi.node) if isinstance(c, ast.Call) and (attr_chain(c.func) or "").endswith("Network")]
+    for c in nets:
+        kwv = next((k.value for k in c.keywords if k.arg == "m_flow_network"), None)
+        bf = c.args[0] if c.args else None
+        if kwv is None or not isinstance(bf, ast.Name):
+            continue
+        if isinstance(kwv, ast.Name):
+            kwv = next((s_.value for s_ in ast.walk(fi.node) if isinstance(s_, ast.Assign) and len(s_.targets) == 1 and isinstance(s_.targets[0], ast.Name) and s_.targets[0].id == kwv.id), kwv)
+        e = Engine(prog, fi, Hooks())
+        s = State()
+        for p in fi.params():
+            s.env[p] = Rat.atom(p)
+        s.env[bf.id] = Rat.atom("bore_field")
+        v = e.eval(kwv, s)
+        okn = isinstance(v, Rat) and v.equals(sym.call("len", [Rat.atom("bore_field")]) * Rat.atom("m_flow_borehole"))
+        # the list handed to the network holds one borehole per coordinate
+        fills = [lp for lp in ast.walk(fi.node) if isinstance(lp, ast.For) and ast.unparse(lp.iter) == "coordinates"
+                 and sum(1 for b_ in lp.body if isinstance(b_, ast.Expr) and isinstance(b_.value, ast.Call) and attr_chain(b_.value.func) == f"{bf.id}.append") == 1]
+        init_empty = any(isinstance(s_, ast.Assign) and len(s_.targets) == 1 and isinstance(s_.targets[0], ast.Name) and s_.targets[0].id == bf.id
+                         and isinstance(s_.value, ast.List) and not s_.value.elts for s_ in fi.node.body)
+        okn = okn and len(fills) == 1 and init_empty
     res.ob("R20.3", "pygfunction network flow = number of boreholes * per-borehole mass flow", okn, prog.loc(fi, fi.node))
     if not okn:
-        res.violation("R20.3", "network-flow", prog.loc(fi, fi.node), q, "the network mass flow handed to pygfunction is not len(bore_field) * m_flow_borehole")
+        res.violation("R20.3", "network-flow", prog.loc(fi, fi.node), q, "the network mass flow handed to pygfunction is not (number of boreholes of the network, one per coordinate) * m_flow_borehole")
 
 
 VARIANTS = [
